@@ -126,3 +126,35 @@ B('C07', 'invariants over the raw set', (D, "configuration = self.configuration 
 B('C07', 'F5 (after fix): exit order from children lists', (D, "            for descendant in sorted(\n                    self._statechart.descendants_for(last_before_lca),\n                    key=lambda s: (-self._statechart.depth_for(s), s)):", "            for descendant in self._statechart.descendants_for(last_before_lca)[::-1]:"))
 T('C07', 'sorted with reverse and negated key', (D, "return sorted(self._configuration, key=lambda s: (self._statechart.depth_for(s), s))", "return sorted(list(self._configuration), key=lambda s: (self._statechart.depth_for(s), s))"))
 T('C07', 'leaves sorted via named key function', (D, "        leaves = sorted([self._statechart.state_for(name) for name in leaves_names],\n                        key=lambda s: (-self._statechart.depth_for(s.name), s.name))", "        def _leaf_key(s):\n            return (-self._statechart.depth_for(s.name), s.name)\n        leaves = sorted([self._statechart.state_for(name) for name in leaves_names], key=_leaf_key)"))
+
+# ---------------------------------------------------------------- C02
+B('C02', 'drop stabilize after apply', (D, "                executed_steps.extend(self._stabilize())\n", ""))
+B('C02', 'stabilize as a single if', (D, "        while step is not None:\n            steps.append(self._apply_step(step))", "        if step is not None:\n            steps.append(self._apply_step(step))"))
+B('C02', 'remove orthogonal leaf branch', (D, "            elif isinstance(leaf, OrthogonalState) and self._statechart.children_for(leaf.name):\n                return MicroStep(entered_states=sorted(self._statechart.children_for(leaf.name)))\n", ""))
+B('C02', 'compound enters all children', (D, "return MicroStep(entered_states=[leaf.initial])", "return MicroStep(entered_states=sorted(self._statechart.children_for(leaf.name)))"))
+B('C02', 'final branch exits only the leaf', (D, "return MicroStep(exited_states=[leaf.name, cast(str, self._statechart.root)])", "return MicroStep(exited_states=[leaf.name])"))
+B('C02', 'second writer of _configuration', (D, "        self._listeners.remove(listener)", "        self._listeners.remove(listener)\n        self._configuration.clear()"))
+B('C02', 'exit filter removed', (D, "                if descendant in self._configuration:\n                    exited_states.append(descendant)", "                if True:\n                    exited_states.append(descendant)"))
+B('C02', 'F8 reverted (orthogonal completion removed)', (D, "                if len(missing) > 0:\n                    return MicroStep(entered_states=sorted(missing))", "                if len(missing) > 0:\n                    pass"))
+B('C02', 'entry walk does not stop at the LCA', (D, "            for state in to_ancestors:\n                if state == lca:\n                    break\n                entered_states.insert(0, state)", "            for state in to_ancestors:\n                entered_states.insert(0, state)"))
+B('C02', 'final ignores initialisation', (D, "return self._initialized and len(self._configuration) == 0", "return len(self._configuration) == 0"))
+B('C02', 'history state not exited', (D, "return MicroStep(entered_states=states_to_enter, exited_states=[leaf.name])", "return MicroStep(entered_states=states_to_enter)"))
+B('C02', 'lca of source and source', (D, "lca = self._statechart.least_common_ancestor(transition.source, transition.target)", "lca = self._statechart.least_common_ancestor(transition.source, transition.source)"))
+B('C02', 'stabilisation recomputed conditionally', (D, "            steps.append(self._apply_step(step))\n            step = self._create_stabilization_step(self._configuration)", "            steps.append(self._apply_step(step))\n            step = self._create_stabilization_step(self._configuration) if len(steps) < 3 else None"))
+T('C02', 'while step:', (D, "        while step is not None:", "        while step:"))
+T('C02', 'discard for remove', (D, "            self._configuration.remove(state.name)", "            self._configuration.discard(state.name)"))
+
+# ---------------------------------------------------------------- C04
+B('C04', 'same-source test removed (F3 reverted)', (D, "                if t1.source == t2.source:\n                    raise NonDeterminismError(", "                if False:\n                    raise NonDeterminismError("))
+B('C04', 'error classes swapped', (D, "                if not isinstance(lca_state, OrthogonalState):\n                    raise NonDeterminismError(", "                if not isinstance(lca_state, OrthogonalState):\n                    raise ConflictingTransitionsError("))
+B('C04', 'adjacent pairs only', (D, "for t1, t2 in combinations(transitions, 2):", "for t1, t2 in zip(transitions, transitions[1:]):"))
+B('C04', 'sort after create', (D, "        transitions = self._sort_transitions(transitions)\n\n        # Should the step consume an event?\n        event = None if transitions[0].event is None else event\n\n        return self._create_steps(event, transitions)",
+   "        event = None if transitions[0].event is None else event\n        steps = self._create_steps(event, transitions)\n        transitions = self._sort_transitions(transitions)\n        return steps"))
+B('C04', 'consume before compute', (D, "        # Compute steps\n        computed_steps = self._compute_steps()\n", "        self._select_event(consume=True)\n        computed_steps = self._compute_steps()\n"))
+B('C04', 'conflict test for t1 only', (D, "for transition in [t1, t2]:", "for transition in [t1]:"))
+B('C04', 'swallow execution errors', (D, "        # Compute steps\n        computed_steps = self._compute_steps()\n", "        try:\n            computed_steps = self._compute_steps()\n        except Exception:\n            computed_steps = []\n"))
+B('C04', 'decision phase writes memory', (D, "        # Compute transitions order\n        transitions = self._sort_transitions(transitions)", "        self._memory.clear()\n        transitions = self._sort_transitions(transitions)"))
+B('C04', 'check only for three or more', (D, "        if len(transitions) > 1:\n            # If more than one transition, we check", "        if len(transitions) > 2:\n            # If more than one transition, we check"))
+B('C04', 'conflict ignores targets', (D, "                    if (transition.target and (transition.target not in [\n                            last_before_lca] + self._statechart.descendants_for(last_before_lca))):", "                    if (transition.target and transition.internal and (transition.target not in [\n                            last_before_lca] + self._statechart.descendants_for(last_before_lca))):"))
+B('C04', 'guard evaluation raises events', (PY, "        return self._evaluate_code(\n            getattr(transition, 'guard', None),\n            additional_context=additional_context)", "        self._interpreter._sent_events.append(event)\n        return self._evaluate_code(\n            getattr(transition, 'guard', None),\n            additional_context=additional_context)"))
+T('C04', 'distinct-sources conjunct', (D, "                if not isinstance(lca_state, OrthogonalState):\n                    raise NonDeterminismError(", "                if t1.source != t2.source and not isinstance(lca_state, OrthogonalState):\n                    raise NonDeterminismError("))
